@@ -60,10 +60,10 @@ def derive(C, ctx, how, rng):
     if how == 'definition':
         return C.Context(*ctx.definition())
     if how == 'dict':
-        d = ctx.todict()
+        d = ctx.todict(ignore_lattice=None)          # the lattice travels iff it has been computed
         new = C.Context.fromdict(copy.deepcopy(d))
     else:
-        d = ctx.todict(ignore_lattice=False)
+        d = ctx.todict() if rng.random() < 0.5 else ctx.todict(ignore_lattice=False)   # the default IS False
         new = C.Context.fromdict(copy.deepcopy(d), require_lattice=True)
     # the exported document belongs to the caller
     for v in d.values():
@@ -115,7 +115,8 @@ def run_session(emit, C, prop, hist, b, seed, mode):
                 elif a['a'] == 'query':
                     r = recs[a['h']]
                     fams = {a['fam']}
-                    rec_ctx.drive(r, r.table, b, fams, rng, False, nsub=3, nmulti=3, label_variant=lv, construct=False)
+                    rec_ctx.drive(r, r.table, b, fams, rng, False, nsub=3, nmulti=3, label_variant=lv, construct=False,
+                                   touch_cached=False)
                 elif a['a'] == 'fail':
                     fail_calls(recs[a['h']], a['lazy'])
                 elif a['a'] == 'derive':
